@@ -154,6 +154,7 @@ pub fn run(rep: &mut Report) {
                 faults.push(Fault::ErrAtRead { n: r });
                 faults.push(Fault::ShortRead { n: r, t: 1 });
                 faults.push(Fault::PendingRead { n: r });
+                faults.push(Fault::InterruptedRead { n: r, t: 1 });
             }
             for sidx in 0..nseeks.min(40) {
                 faults.push(Fault::ErrAtSeek { n: sidx });
